@@ -77,6 +77,20 @@ def formula_clause(model, rep, funcs):
                 if isinstance(bb_["idx"][1], ast.Name) and M.has(f"{bb_['idx'][1].id} = np.arange(0, {nn_})"):
                     via = True
             okidx = (direct or via) and M.has("$freq = (np.arange(len($$o)) + 0.5) * dfreq")
+    elif okl and not inner:
+        # the per-shell sums written out without the local helper: every sum_labels call uses the label grid and index = arange(0, nlabels)
+        bi = dict(bg)
+        if M.has("$nl = $lab.max()", bi) and isinstance(bi["lab"][1], ast.Name) and isinstance(bi["nl"][1], ast.Name):
+            ln_, nn_ = bi["lab"][1].id, bi["nl"][1].id
+            sl_calls = [c for c in calls_in(f) if (dotted(c.func) or "").rsplit(".", 1)[-1] == "sum_labels"]
+
+            def _idx_ok(c):
+                ix = kwarg(c, "index")
+                lb = kwarg(c, "labels")
+                ixx = norm_src(M.expr(ix, keep=(nn_,))) if ix is not None else ""
+                return lb is not None and norm_src(lb) == ln_ and ixx in (f"np.arange(0, {nn_})", f"np.arange({nn_})")
+
+            okidx = len(sl_calls) >= 3 and all(_idx_ok(c) for c in sl_calls) and M.has("$freq = (np.arange(len($$o)) + 0.5) * dfreq")
     rep.ob("L", f.anchor, "shell i of the output is the sum over label i (index 0 .. nlabels-1) and is reported at frequency (i + 1/2) * dfreq", okidx, "", node=f.node, fn=f,
            clause="layout", stmt="fsc shell index")
     okl = okl and okshape
